@@ -67,15 +67,34 @@ func (y *c12Y) Ctx(ctx context.Context, m map[string]int, p *BasicObj) (int, err
 	return len(m), nil
 }
 
-var c12Methods = map[string][]string{"X": {"Get", "Put", "Shared"}, "Y": {"Ctx", "Get", "Only", "Shared"}}
+// c12Z: narrow numeric parameter types (a literal outside the declared type's range does not decode into it)
+type c12Z struct {
+	reg string
+	log *c12Log
+}
+
+func (z *c12Z) I8(v int8) int                  { z.log.hit(z.reg, "I8"); return int(v) }
+func (z *c12Z) U8(v uint8) int                 { z.log.hit(z.reg, "U8"); return int(v) }
+func (z *c12Z) I16(a string, v int16) int      { z.log.hit(z.reg, "I16"); return int(v) }
+func (z *c12Z) U16(v uint16, b bool) int       { z.log.hit(z.reg, "U16"); return int(v) }
+func (z *c12Z) I32(v int32) (int, error)       { z.log.hit(z.reg, "I32"); return int(v), nil }
+func (z *c12Z) U32(v uint32) (int, error)      { z.log.hit(z.reg, "U32"); return int(v), nil }
+func (z *c12Z) U64(v uint64) error             { z.log.hit(z.reg, "U64"); return nil }
+func (z *c12Z) F32(v float32) error            { z.log.hit(z.reg, "F32"); return nil }
+func (z *c12Z) Arr(v [2]int8, w []uint8) error { z.log.hit(z.reg, "Arr"); return nil }
+
+var c12Methods = map[string][]string{"X": {"Get", "Put", "Shared"}, "Y": {"Ctx", "Get", "Only", "Shared"}, "Z": {"Arr", "F32", "I16", "I32", "I8", "U16", "U32", "U64", "U8"}}
 
 // parameter kinds per method, for building right / wrong requests
 var c12Params = map[string][]string{
 	"X.Get": {"int"}, "X.Put": {"string"}, "X.Shared": {},
 	"Y.Get": {"int"}, "Y.Only": {"int", "string", "bool"}, "Y.Shared": {}, "Y.Ctx": {"map", "ptrobj"},
+	"Z.I8": {"int8"}, "Z.U8": {"uint8"}, "Z.I16": {"string", "int16"}, "Z.U16": {"uint16", "bool"}, "Z.I32": {"int32"}, "Z.U32": {"uint32"},
+	"Z.U64": {"uint64"}, "Z.F32": {"float32"}, "Z.Arr": {"arr2int8", "bytes"},
 }
 
-var c12Good = map[string]string{"int": "7", "string": `"s"`, "bool": "true", "map": `{"k":1}`, "ptrobj": `{"a":1}`}
+var c12Good = map[string]string{"int": "7", "string": `"s"`, "bool": "true", "map": `{"k":1}`, "ptrobj": `{"a":1}`,
+	"int8": "-8", "uint8": "8", "int16": "-16", "uint16": "16", "int32": "-32", "uint32": "32", "uint64": "64", "float32": "1.5", "arr2int8": "[1,-2]", "bytes": `"AQI="`}
 
 func c12Decodes(kind, raw string) bool {
 	switch kind {
@@ -93,6 +112,36 @@ func c12Decodes(kind, raw string) bool {
 		return json.Unmarshal([]byte(raw), &v) == nil
 	case "ptrobj":
 		var v *BasicObj
+		return json.Unmarshal([]byte(raw), &v) == nil
+	case "int8":
+		var v int8
+		return json.Unmarshal([]byte(raw), &v) == nil
+	case "uint8":
+		var v uint8
+		return json.Unmarshal([]byte(raw), &v) == nil
+	case "int16":
+		var v int16
+		return json.Unmarshal([]byte(raw), &v) == nil
+	case "uint16":
+		var v uint16
+		return json.Unmarshal([]byte(raw), &v) == nil
+	case "int32":
+		var v int32
+		return json.Unmarshal([]byte(raw), &v) == nil
+	case "uint32":
+		var v uint32
+		return json.Unmarshal([]byte(raw), &v) == nil
+	case "uint64":
+		var v uint64
+		return json.Unmarshal([]byte(raw), &v) == nil
+	case "float32":
+		var v float32
+		return json.Unmarshal([]byte(raw), &v) == nil
+	case "arr2int8":
+		var v [2]int8
+		return json.Unmarshal([]byte(raw), &v) == nil
+	case "bytes":
+		var v []uint8
 		return json.Unmarshal([]byte(raw), &v) == nil
 	}
 	return false
@@ -188,6 +237,8 @@ func c12Build(cfg c12Config) *c12Server {
 			reg := r.NS + ":" + r.Type
 			if r.Type == "X" {
 				s.rpc.Register(r.NS, &c12X{reg: reg, log: s.log})
+			} else if r.Type == "Z" {
+				s.rpc.Register(r.NS, &c12Z{reg: reg, log: s.log})
 			} else {
 				s.rpc.Register(r.NS, &c12Y{reg: reg, log: s.log})
 			}
@@ -237,60 +288,115 @@ func goodParams(typ, method string) string {
 	return "[" + strings.Join(parts, ",") + "]"
 }
 
+// c12DispatchCheck sends one request for the method string and judges it by the dispatch model: the direct formatted name,
+// else the alias target, else method-not-found with nothing run.
+func c12DispatchCheck(srv *c12Server, cfg c12Config, tab map[string][]c12Target, method string) *Violation {
+	targets := c12Lookup(cfg, tab, method)
+	if len(targets) == 0 {
+		r, runs, v := srv.call(method, "[]")
+		if v != nil {
+			return v
+		}
+		if len(runs) != 0 {
+			return violf("notfound-ran", "method string %q resolves to nothing but %v ran", method, runs)
+		}
+		if !r.hasErr || r.errCode != -32601 {
+			return violf("notfound-code", "method string %q resolves to nothing: expected -32601, got hasErr=%v code=%d", method, r.hasErr, r.errCode)
+		}
+		return nil
+	}
+	// all candidate targets of an ambiguous name share a spelling; params are chosen per candidate
+	var last *Violation
+	for _, tg := range targets {
+		r, runs, v := srv.call(method, goodParams(tg.typ, tg.method))
+		if v != nil {
+			return v
+		}
+		if len(runs) == 1 {
+			ok := false
+			for _, t2 := range targets {
+				if runs[0] == t2.reg+"/"+t2.method {
+					ok = true
+				}
+			}
+			if !ok {
+				_, direct := tab[method]
+				key := "wrong-handler"
+				if !direct {
+					key = "alias-wrong-handler"
+				} else if _, isAlias := cfg.Aliases[method]; isAlias {
+					key = "alias-beats-direct"
+				}
+				return violf(key, "method string %q must run one of %v but %v ran", method, targets, runs)
+			}
+			if r.hasErr {
+				return violf("ran-but-error", "handler ran but the call returned error %d %q", r.errCode, r.errMsg)
+			}
+			return nil
+		}
+		if len(runs) > 1 {
+			return violf("ran-twice", "method string %q ran %v", method, runs)
+		}
+		last = violf("resolvable-not-run", "method string %q must run one of %v but nothing ran (error %d %q)", method, targets, r.errCode, r.errMsg)
+	}
+	return last
+}
+
+// ---- histories: setup steps and requests interleaved on one live server ---------------------------------------------
+
+type c12Op struct {
+	Op     string `json:"op"` // register | alias | request
+	NS     string `json:"ns,omitempty"`
+	Type   string `json:"type,omitempty"`
+	Alias  string `json:"alias,omitempty"`
+	To     string `json:"to,omitempty"`
+	Method string `json:"method,omitempty"`
+}
+
+type c12History struct {
+	Formatter string  `json:"formatter"`
+	Ops       []c12Op `json:"history_ops"`
+}
+
+// runC12History applies the steps one by one to a single server; every request is judged against the registrations and
+// aliases made so far (a later alias may add a name, re-point one or point it at nothing; a later registration may claim
+// a name an alias used to cover).
+func runC12History(h c12History) *Violation {
+	cfg := c12Config{Formatter: h.Formatter, Aliases: map[string]string{}}
+	srv := &c12Server{log: &c12Log{}}
+	srv.rpc = jsonrpc.NewServer(jsonrpc.WithServerMethodNameFormatter(c12Formatter(h.Formatter)))
+	for i, op := range h.Ops {
+		switch op.Op {
+		case "register":
+			reg := op.NS + ":" + op.Type
+			switch op.Type {
+			case "X":
+				srv.rpc.Register(op.NS, &c12X{reg: reg, log: srv.log})
+			case "Z":
+				srv.rpc.Register(op.NS, &c12Z{reg: reg, log: srv.log})
+			default:
+				srv.rpc.Register(op.NS, &c12Y{reg: reg, log: srv.log})
+			}
+			cfg.Regs = append(cfg.Regs, c12Reg{NS: op.NS, Type: op.Type})
+		case "alias":
+			srv.rpc.AliasMethod(op.Alias, op.To)
+			cfg.Aliases[op.Alias] = op.To
+		case "request":
+			if v := c12DispatchCheck(srv, cfg, c12Table(cfg), op.Method); v != nil {
+				v.Msg = fmt.Sprintf("step %d of the history: %s", i+1, v.Msg)
+				return v
+			}
+		}
+	}
+	return nil
+}
+
 func runC12(c c12Case) *Violation {
 	srv := c12Build(c.Config)
 	tab := c12Table(c.Config)
 	switch c.Kind {
 	case "dispatch":
-		targets := c12Lookup(c.Config, tab, c.Method)
-		if len(targets) == 0 {
-			r, runs, v := srv.call(c.Method, "[]")
-			if v != nil {
-				return v
-			}
-			if len(runs) != 0 {
-				return violf("notfound-ran", "method string %q resolves to nothing but %v ran", c.Method, runs)
-			}
-			if !r.hasErr || r.errCode != -32601 {
-				return violf("notfound-code", "method string %q resolves to nothing: expected -32601, got hasErr=%v code=%d", c.Method, r.hasErr, r.errCode)
-			}
-			return nil
-		}
-		// all candidate targets of an ambiguous name share a spelling; params are chosen per candidate
-		var last *Violation
-		for _, tg := range targets {
-			r, runs, v := srv.call(c.Method, goodParams(tg.typ, tg.method))
-			if v != nil {
-				return v
-			}
-			if len(runs) == 1 {
-				ok := false
-				for _, t2 := range targets {
-					if runs[0] == t2.reg+"/"+t2.method {
-						ok = true
-					}
-				}
-				if !ok {
-					_, direct := tab[c.Method]
-					key := "wrong-handler"
-					if !direct {
-						key = "alias-wrong-handler"
-					} else if _, isAlias := c.Config.Aliases[c.Method]; isAlias {
-						key = "alias-beats-direct"
-					}
-					return violf(key, "method string %q must run one of %v but %v ran", c.Method, targets, runs)
-				}
-				if r.hasErr {
-					return violf("ran-but-error", "handler ran but the call returned error %d %q", r.errCode, r.errMsg)
-				}
-				return nil
-			}
-			if len(runs) > 1 {
-				return violf("ran-twice", "method string %q ran %v", c.Method, runs)
-			}
-			last = violf("resolvable-not-run", "method string %q must run one of %v but nothing ran (error %d %q)", c.Method, targets, r.errCode, r.errMsg)
-		}
-		return last
+		return c12DispatchCheck(srv, c.Config, tab, c.Method)
 	case "arity", "type":
 		targets := c12Lookup(c.Config, tab, c.Method)
 		if len(targets) != 1 {
@@ -628,7 +734,7 @@ func c12AliasTables(cfg c12Config) []map[string]string {
 	return tables
 }
 
-const c12Rule = "exhaustive over {A,B,''} namespaces x {none,X,Y,X+Y,Y+X} registrations per namespace x 6 formatters x 5 alias tables (declared after or before the registrations) x every candidate method string of the universe; arities 0..k+1 and one wrongly typed JSON value per parameter position for every method; client/server agreement (same formatter, rpc_method tag); 8 goroutines building servers and clients at the same time through one shared built-in formatter instance, each under its own namespace. Non-trivial = >=2 registrations, or an alias involved, or a non-default formatter; distinct by descriptor hash"
+const c12Rule = "exhaustive over {A,B,''} namespaces x {none,X,Y,X+Y,Y+X} registrations per namespace x 6 formatters x 5 alias tables (declared after or before the registrations) x every candidate method string of the universe; arities 0..k+1 and one wrongly typed JSON value per parameter position for every method, including a fixture with narrow numeric parameter types (int8..uint64, float32, fixed arrays) and literals on either side of each type's range; histories of register / alias / request steps interleaved on one live server, every request judged against the setup made so far; client/server agreement (same formatter, rpc_method tag); 8 goroutines building servers and clients at the same time through one shared built-in formatter instance, each under its own namespace. Non-trivial = >=2 registrations, or an alias involved, or a non-default formatter; distinct by descriptor hash"
 
 func c12NT(c c12Case) (bool, []string) {
 	cl := []string{"kind_" + c.Kind, "fmt_" + c.Config.Formatter}
@@ -659,7 +765,7 @@ func c12NT(c c12Case) (bool, []string) {
 func TestC12(t *testing.T) {
 	rec := NewRec("C12", c12Rule)
 	defer rec.Finish(t)
-	rec.RequireClass("alias_declared_before_registration", "concurrent_setup", "method_is_alias", "alias_shadows_direct", "resolves_none", "resolves_one", "kind_arity", "kind_type", "kind_client", "kind_tag")
+	rec.RequireClass("history_setup_after_request", "alias_declared_before_registration", "concurrent_setup", "method_is_alias", "alias_shadows_direct", "resolves_none", "resolves_one", "kind_arity", "kind_type", "kind_client", "kind_tag")
 	names := c12AllNames()
 	regsets := c12AllRegSets()
 	sh, nsh := shard()
@@ -705,9 +811,12 @@ func TestC12(t *testing.T) {
 	})
 
 	t.Run("arity-types", func(t *testing.T) {
-		bad := []string{"1", "-7", "2.5", `"s"`, `""`, "true", "null", "[]", "[1]", "{}", `{"a":"x"}`, `{"k":"v"}`, "1e400", "9223372036854775808"}
+		bad := []string{"1", "-7", "2.5", `"s"`, `""`, "true", "null", "[]", "[1]", "{}", `{"a":"x"}`, `{"k":"v"}`, "1e400", "9223372036854775808",
+			// the edges of the narrow integer types, either side
+			"127", "128", "-128", "-129", "255", "256", "300", "-1", "32767", "32768", "-32769", "65535", "65536", "65558", "2147483647", "2147483648", "-2147483649",
+			"4294967295", "4294967296", "1099511627776", "18446744073709551615", "18446744073709551616", "1e2", "3.5e38", "[1,2]", "[1,128]", "[1,2,3]", `"AQI"`, "[300]"}
 		for _, f := range c12Formatters {
-			for _, typ := range []string{"X", "Y"} {
+			for _, typ := range []string{"X", "Y", "Z"} {
 				cfg := c12Config{Regs: []c12Reg{{NS: "A", Type: typ}}, Formatter: f.Name}
 				for _, m := range c12Methods[typ] {
 					kinds := c12Params[typ+"."+m]
@@ -743,6 +852,59 @@ func TestC12(t *testing.T) {
 				}
 			}
 		}
+	})
+
+	t.Run("histories", func(t *testing.T) {
+		for _, f := range c12Formatters {
+			n := func(ns, m string) string { return f.F(ns, m) }
+			hs := []c12History{
+				{Formatter: f.Name, Ops: []c12Op{{Op: "register", NS: "A", Type: "X"}, {Op: "request", Method: n("A", "Get")}, {Op: "alias", Alias: "Legacy.Get", To: n("A", "Get")}, {Op: "request", Method: "Legacy.Get"},
+					{Op: "alias", Alias: "Legacy.Get", To: n("A", "Put")}, {Op: "request", Method: "Legacy.Get"}, {Op: "alias", Alias: "Legacy.Get", To: "No.Such"}, {Op: "request", Method: "Legacy.Get"},
+					{Op: "register", NS: "B", Type: "Y"}, {Op: "alias", Alias: "Legacy.Get", To: n("B", "Only")}, {Op: "request", Method: "Legacy.Get"}, {Op: "request", Method: n("B", "Only")}}},
+				{Formatter: f.Name, Ops: []c12Op{{Op: "alias", Alias: "old", To: n("B", "Ctx")}, {Op: "request", Method: "old"}, {Op: "register", NS: "B", Type: "Y"}, {Op: "request", Method: "old"},
+					{Op: "alias", Alias: n("B", "Get"), To: n("B", "Only")}, {Op: "request", Method: n("B", "Get")}, {Op: "register", NS: "B", Type: "X"}, {Op: "request", Method: n("B", "Put")}, {Op: "request", Method: "old"}}},
+				{Formatter: f.Name, Ops: []c12Op{{Op: "register", NS: "A", Type: "Y"}, {Op: "alias", Alias: "x", To: n("A", "Get")}, {Op: "request", Method: "x"}, {Op: "alias", Alias: "y", To: n("A", "Shared")}, {Op: "request", Method: "y"},
+					{Op: "request", Method: "x"}, {Op: "alias", Alias: "x", To: n("A", "Shared")}, {Op: "request", Method: "x"}}},
+			}
+			for _, h := range hs {
+				rec.Run(t, h, true, []string{"history", "history_setup_after_request", "fmt_" + f.Name}, func() *Violation { return runC12History(h) })
+			}
+		}
+	})
+
+	rec.Rapid(t, "rapid-histories", func(rt *rapid.T) {
+		h := c12History{Formatter: rapid.SampledFrom(c12Formatters).Draw(rt, "fmt").Name}
+		f := c12Formatter(h.Formatter)
+		nss := []string{"A", "B", ""}
+		pool := []string{"Legacy.Get", "old", "x"}
+		for _, ns := range nss {
+			for _, typ := range []string{"X", "Y"} {
+				for _, m := range c12Methods[typ] {
+					pool = append(pool, f(ns, m))
+				}
+			}
+		}
+		n := rapid.IntRange(3, 14).Draw(rt, "nops")
+		seenReq, setupAfterReq, late := false, false, false
+		for i := 0; i < n; i++ {
+			switch rapid.IntRange(0, 5).Draw(rt, "op") {
+			case 0:
+				h.Ops = append(h.Ops, c12Op{Op: "register", NS: rapid.SampledFrom(nss).Draw(rt, "ns"), Type: rapid.SampledFrom([]string{"X", "Y"}).Draw(rt, "type")})
+				setupAfterReq = setupAfterReq || seenReq
+			case 1, 2:
+				h.Ops = append(h.Ops, c12Op{Op: "alias", Alias: rapid.SampledFrom(pool).Draw(rt, "alias"), To: rapid.SampledFrom(pool).Draw(rt, "to")})
+				setupAfterReq = setupAfterReq || seenReq
+			default:
+				h.Ops = append(h.Ops, c12Op{Op: "request", Method: rapid.SampledFrom(pool).Draw(rt, "method")})
+				seenReq = true
+				late = late || setupAfterReq
+			}
+		}
+		cl := []string{"history", "fmt_" + h.Formatter}
+		if late {
+			cl = append(cl, "history_setup_after_request")
+		}
+		rec.Run(rt, h, late, cl, func() *Violation { return runC12History(h) })
 	})
 
 	t.Run("concurrent-setup", func(t *testing.T) {
@@ -793,6 +955,13 @@ func TestC12Replay(t *testing.T) {
 	Replay(t, "C12", 1, func(raw json.RawMessage) *Violation {
 		var probe map[string]json.RawMessage
 		_ = json.Unmarshal(raw, &probe)
+		if _, ok := probe["history_ops"]; ok {
+			var h c12History
+			if err := json.Unmarshal(raw, &h); err != nil {
+				return nil
+			}
+			return runC12History(h)
+		}
 		if _, ok := probe["builders"]; ok {
 			var c c12ConcSetup
 			if err := json.Unmarshal(raw, &c); err != nil {
